@@ -276,7 +276,7 @@ func c05Check(c *eng.Case) *eng.Outcome {
 					// <svg><xmp>&lt;img onerror=...&gt;</xmp></svg> as a parser would build it
 					ch.Namespace = t.tag
 					inner := &html.Node{Type: html.ElementNode, Data: t.val[8:], Namespace: t.tag}
-					inner.AppendChild(dom.CreateTextNode("<img src=\"x.png\" onerror=\"alert(2)\" id=\"i2\" class=\"c2\"><script>alert(3)</script>"))
+					inner.AppendChild(dom.CreateTextNode("<img src=\"x.png\" onerror=\"alert(2)\" id=\"i2\" class=\"c2\"><script>alert(3)</script><div class=\"embed-placeholder\" onclick=\"alert(4)\" id=\"p4\" style=\"color:red\" data-evil=\"1\" data-type=\"youtube\" data-id=\"forged\">zzforged</div>"))
 					ch.AppendChild(inner)
 				} else if strings.HasPrefix(t.val, "RAW:") {
 					// raw text child, as the HTML parser (scripting enabled) produces for <noscript>
@@ -333,7 +333,7 @@ func init() {
 		ID:        "C05",
 		DesignRef: "§5 C05",
 		Rule: "host document with every element kind that has its own rendering path (text blocks with inline markup, list, img, picture, two figures, video with source/track, data table with image, layout table with font, YouTube and Vimeo iframes, twitter blockquote, blockquote, pre, heading), all retained; " +
-			"every element node of its body x every taint {onclick, onerror, raw upper-case ONLOAD, raw ID/Class/STYLE, id, class, style, data-x, srcdoc, child <script>, child <style>, a child <noscript> whose raw text is markup with handlers and scripts, svg>xmp and math>style children whose text is markup, the same script/style children carrying an inline display style} (quick; singles also under a non-absolute page URL) + {onmouseover, raw ID, data-type, unknown, xmlns:og, on} and a page URL (thorough); all singles and all pairs; plus each of the 137 event-handler attributes of the HTML standard on the elements (quick: every third element per handler; thorough: every element). Taints are applied to the parsed tree, so raw-case keys reach the library." + crossRule + " " +
+			"every element node of its body x every taint {onclick, onerror, raw upper-case ONLOAD, raw ID/Class/STYLE, id, class, style, data-x, srcdoc, child <script>, child <style>, a child <noscript> whose raw text is markup with handlers and scripts, svg>xmp and math>style children whose text is markup (an image with a handler, a script, and a forged embed-placeholder div carrying a handler, id, style and data attribute), the same script/style children carrying an inline display style} (quick; singles also under a non-absolute page URL) + {onmouseover, raw ID, data-type, unknown, xmlns:og, on} and a page URL (thorough); all singles and all pairs; plus each of the 137 event-handler attributes of the HTML standard on the elements (quick: every third element per handler; thorough: every element). Taints are applied to the parsed tree, so raw-case keys reach the library." + crossRule + " " +
 			"Oracle on result.Node: no script/style element; no on* attribute; no id/style; class only 'embed-placeholder' on the placeholder div; data-* only data-type/data-id there. Non-trivial = every tainted host element is represented in the output.",
 		Enumerate: c05Enumerate,
 		Check:     c05Check,
